@@ -23,7 +23,21 @@ import c07hooks
 # name -> (nParams, nStates (None: chosen per case), nInputs, nOutputs)
 CAT = {'Input': (0, 0, 1, 1), 'Sum': (0, 0, 2, 1), 'Gate': (0, 0, 2, 1), 'FixedPartition': (1, 0, 1, 2),
        'VariablePartition': (0, 0, 2, 2), 'ApplyScalingFactor': (1, 0, 1, 1), 'PartitionDemand': (0, 0, 2, 2),
-       'Lag': (1, None, 1, 1), 'Muskingum': (3, 3, 2, 1)}
+       'Lag': (1, None, 1, 1), 'Muskingum': (3, 3, 2, 1),
+       # names related by PREFIX (output selection must match whole names): the oracle is the Go kernel itself
+       'DynamicSednetGully': (12, 0, 4, 4), 'DynamicSednetGullyAlt': (12, 0, 4, 4),
+       'StorageTrapAll': (0, 1, 4, 2), 'Storage': (17, 3, 6, 4)}
+SOURCE_ONLY = {'Storage'}       # never a link destination (its inputs must stay physically meaningful); always stored inputs
+# every key of sim.Catalog (flag entries are drawn from these too)
+CATALOGUE_NAMES = ['ApplyScalingFactor', 'BankErosion', 'BaseflowFilter', 'ClimateVariables', 'ComputeProportion', 'ConstituentDecay',
+                   'DateGenerator', 'DeliveryRatio', 'DepthToRate', 'DynamicSednetGully', 'DynamicSednetGullyAlt', 'EmcDwc',
+                   'FixedConcentration', 'FixedPartition', 'GR4J', 'Gate', 'Input', 'InstreamCoarseSediment',
+                   'InstreamDissolvedNutrientDecay', 'InstreamFineSediment', 'InstreamParticulateNutrient', 'Lag',
+                   'LumpedConstituentRouting', 'Muskingum', 'PartitionDemand', 'PassLoadIfFlow', 'RatingCurvePartition',
+                   'RunoffCoefficient', 'Sacramento', 'SednetDissolvedNutrientGeneration', 'SednetParticulateNutrientGeneration',
+                   'Simhyd', 'Storage', 'StorageDissolvedDecay', 'StorageParticulateTrapping', 'StorageRouting', 'StorageTrapAll',
+                   'Sum', 'Surm', 'USLEFineSedimentGeneration', 'VariablePartition']
+STORAGE_TABLE = [86400.0, 3.0] + [0., 10., 20.] + [0., 1e6, 3e6] + [0., 1e5, 2e5] + [0., 0., 50.] + [0., 20., 60.]
 MUSK = [(1.0, 0.0, 1.0), (1.0, 0.25, 1.0), (2.0, 0.125, 2.0), (1.0, 0.5, 1.0), (3.0, 0.25, 2.0)]
 
 
@@ -70,7 +84,7 @@ def gen_case(rng, cid, big=False, split=None, force=None):
         for c in counts:
             acc += c
             batches.append(acc)
-        hasin = 1 if rng.random() < (0.85 if nm == 'Input' else 0.3) else 0
+        hasin = 1 if (nm in SOURCE_ONLY or rng.random() < (0.85 if nm == 'Input' else 0.3)) else 0
         models.append({'name': nm, 'batches': batches, 'counts': counts, 'np': np_, 'ns': ns, 'ni': ni, 'no': no,
                        'hasin': hasin, 'N': acc})
     if not any(m['N'] for m in models):
@@ -82,6 +96,21 @@ def gen_case(rng, cid, big=False, split=None, force=None):
             models[rng.randrange(len(models))]['hasin'] = 1
         else:
             T = 0            # nothing stored: the file does not say how long the series are; ow-sim simulates 0 steps
+    # kernels that index element 0 of a series (StorageTrapAll) cannot run on empty series; Storage.FindDimensions
+    # needs at least one parameter column: keep such files out (they crash inside the kernel / at start-up, which is
+    # not what this property is about)
+    if T == 0 and any(m['name'] in ('StorageTrapAll', 'Storage') and m['N'] > 0 for m in models):
+        T = 1
+        if not any(m['hasin'] for m in models):
+            models[0]['hasin'] = 1
+    for m in models:
+        if m['name'] == 'Storage' and m['N'] == 0:
+            g0 = rng.randrange(G)
+            m['counts'][g0] += 1
+            m['batches'] = [b + (1 if g >= g0 else 0) for g, b in enumerate(m['batches'])]
+            m['N'] = 1
+            if T == 0:
+                T = 1
     for m in models:
         nodes = []
         for row in range(m['N']):
@@ -94,10 +123,18 @@ def gen_case(rng, cid, big=False, split=None, force=None):
                 p = [float(rng.randint(0, m['ns']))]
             elif nm == 'Muskingum':
                 p = list(rng.choice(MUSK))
+            elif nm.startswith('DynamicSednetGully'):
+                p = [float(rng.randint(0, 2)), float(rng.randint(1, 3)), 1e4, rng.choice([0.5, 1.0, 2.0]), 10.0, 40.0, 1.0,
+                     rng.choice([0.0, 2.0]), rng.choice([0.0, 1.0, 1.5]), 50.0, 20.0, 86400.0]
+            elif nm == 'Storage':
+                p = list(STORAGE_TABLE)
             else:
                 p = []
             s = [value(rng) for _ in range(m['ns'])]
-            inp = [[(rng.choice([0.0, 0.25, 0.5, 1.0]) if (nm == 'VariablePartition' and k == 1) else value(rng))
+            if nm == 'Storage':
+                s = [rng.choice([1e6, 1.2e6, 2.5e6]), 0.0, 0.0]
+            inp = [[(rng.choice([0.0, 0.25, 0.5, 1.0]) if (nm == 'VariablePartition' and k == 1) else
+                     0.0 if (nm == 'Storage' and k >= 4) else value(rng))
                     for _ in range(T)] for k in range(m['ni'])] if m['hasin'] else None
             nodes.append((p, s, inp))
         m['nodes'] = nodes
@@ -109,6 +146,8 @@ def gen_case(rng, cid, big=False, split=None, force=None):
     links = []
     fanin = 0
     for di, dm in enumerate(models):
+        if dm['name'] in SOURCE_ONLY:
+            continue
         for drow in range(dm['N']):
             dg = gen_of(dm, drow)
             if dg == 0:
@@ -130,16 +169,80 @@ def gen_case(rng, cid, big=False, split=None, force=None):
     rng.shuffle(links)
     links.sort(key=lambda l: l[0])
     flags = []
-    allnames = [m['name'] for m in models] + ['NoSuchModel']
+    # entries: names of the graph, other catalogue names (in particular those of which a graph name is a proper
+    # prefix, and proper prefixes of graph names), made-up extensions / truncations of graph names, unknown names
+    here = [m['name'] for m in models]
+    related = [n for n in CATALOGUE_NAMES if n not in here and any(n.startswith(h) or h.startswith(n) for h in here)]
+    madeup = [h + sfx for h in here for sfx in ('Alt', '2')] + [h[:-1] for h in here if len(h) > 2] + [h[:3] for h in here]
+
+    def entry():
+        r = rng.random()
+        if r < 0.45 or not (related or madeup):
+            return rng.choice(here)
+        if r < 0.65 and related:
+            return rng.choice(related)
+        if r < 0.85:
+            return rng.choice(madeup)
+        return rng.choice(CATALOGUE_NAMES + ['NoSuchModel'])
+    pflag = force.get('pflag', 0.3)
     for fl in ('-outputs-for', '-no-outputs-for', '-inputs-for', '-no-inputs-for'):
-        if rng.random() < 0.25:
-            flags += [fl, ','.join(rng.sample(allnames, rng.randint(1, min(3, len(allnames)))))]
+        if rng.random() < pflag:
+            ents = []
+            for _ in range(rng.choice([1, 1, 2, 3])):
+                e = entry()
+                if e not in ents:
+                    ents.append(e)
+            flags += [fl, ','.join(ents)]
     if rng.random() < 0.1:
         flags.append('-v')
     return {'id': cid, 'T': T, 'G': G, 'models': models, 'links': links,
             'outfile': 0 if rng.random() < 0.06 else 1, 'flags': flags, 'split': list(split or []),
             'finalstates': 1 if rng.random() < 0.15 else 0, 'fanin': fanin}
 
+
+
+def gen_wide(rng, cid):
+    """One generation with many (>= 300) outgoing links converging on the SAME few input series: hundreds of Input
+    nodes in generation 0, all linked into the 2 inputs of 1-3 Sum nodes of generation 1, and a small tail.  All values
+    are small integers, so the sum is exact in ANY order of accumulation: only a lost or duplicated contribution can
+    make the result differ from the sequential reference."""
+    S = rng.randint(300, 600)
+    k = rng.randint(1, 3)
+    T = rng.choice([48, 64, 96])
+
+    def mk(nm, counts, hasin, **kw):
+        np_, ns, ni, no = CAT[nm]
+        batches, acc = [], 0
+        for c in counts:
+            acc += c
+            batches.append(acc)
+        return dict({'name': nm, 'batches': batches, 'counts': counts, 'np': np_, 'ns': ns or 0, 'ni': ni, 'no': no,
+                     'hasin': hasin, 'N': acc}, **kw)
+    models = [mk('Input', [S, 0, 0], 1), mk('Sum', [0, k, 0], 0), mk('ApplyScalingFactor', [0, 0, 2], 0),
+              mk('Gate', [0, 1, 1], 0)]
+    rng.shuffle(models)
+    idx = {m['name']: i for i, m in enumerate(models)}
+    for m in models:
+        m['nodes'] = []
+        for row in range(m['N']):
+            p = [2.0] if m['name'] == 'ApplyScalingFactor' else []
+            inp = [[float(rng.randint(0, 7)) for _ in range(T)] for _ in range(m['ni'])] if m['hasin'] else None
+            m['nodes'].append((p, [], inp))
+    links = []
+    for srow in range(S):
+        for _ in range(rng.choice([1, 1, 2])):
+            dn, dv = rng.randrange(k), rng.randrange(2)
+            links.append((0, idx['Input'], srow, srow, 0, 1, idx['Sum'], dn, dn, dv))
+        if rng.random() < 0.1:
+            links.append((0, idx['Input'], srow, srow, 0, 1, idx['Gate'], 0, 0, rng.randrange(2)))
+    for dn in range(k):                        # tail: generation 1 -> generation 2
+        for trow in range(2):
+            links.append((1, idx['Sum'], dn, dn, 0, 2, idx['ApplyScalingFactor'], trow, trow, 0))
+        links.append((1, idx['Sum'], dn, dn, 0, 2, idx['Gate'], 1, 0, rng.randrange(2)))
+    rng.shuffle(links)
+    links.sort(key=lambda l: l[0])
+    return {'id': cid, 'T': T, 'G': 3, 'models': models, 'links': links, 'outfile': 1,
+            'flags': ['-inputs-for', 'Sum,Gate'], 'split': [], 'finalstates': 0, 'fanin': S, 'wide': True}
 
 def case_tokens(c):
     t = ['CASE', c['id'], 'T', str(c['T']), 'NMODELS', str(len(c['models']))]
@@ -222,6 +325,18 @@ def requested(nm, flags, incl, excl, dflt):
     return dflt
 
 
+def canon(rec):
+    """dataset record with every NaN bit pattern replaced by the canonical quiet NaN (payloads are not compared)"""
+    if ':' not in rec:
+        return rec
+    h, v = rec.split(':', 1)
+    toks = v.split()
+    for i, t in enumerate(toks):
+        if len(t) == 16 and t[0] in '7f' and t[:3].lower() in ('7ff', 'fff') and t[3:] != '0' * 13:
+            toks[i] = '7ff8000000000000'
+    return (h.strip() + ' : ' + ' '.join(toks)).strip()
+
+
 def parse_simgen(text):
     """-> {casefile: {'run':..., 'trace': [...], 'IMPL': {(model,label): rec}, 'ORACLE':..., ...}}"""
     res, cur = {}, None
@@ -245,7 +360,7 @@ def parse_simgen(text):
             cur['trace'].append(tuple(rest.split()))
         elif k in ('IMPL', 'ORACLE', 'IMPLMAIN', 'IMPLATEXIT'):
             p = rest.split(' ', 2)
-            cur[k][(p[0], p[1])] = ' '.join(p[2].split()) if len(p) > 2 else ''
+            cur[k][(p[0], p[1])] = canon(' '.join(p[2].split())) if len(p) > 2 else ''
         elif k == 'LOG':
             cur['log'].append(rest)
         elif k == 'END':
@@ -266,7 +381,7 @@ def parse_model(line):
             if p[1] == 'FAIL':
                 out[p[0]] = 'FAIL'
             else:
-                out[p[0]][(p[1], p[2])] = ' '.join(p[3].split()) if len(p) > 3 else ''
+                out[p[0]][(p[1], p[2])] = canon(' '.join(p[3].split())) if len(p) > 3 else ''
         elif p[0] == 'PROTO':
             out['PROTO'] = dict(x.split('=') for x in rec.split()[1:])
     return out
@@ -313,9 +428,11 @@ def main():
         notes.append(note)
         if missing:
             notes.append('hook anchors not found in main.go: %r' % (missing,))
-        owsim_race = None
+        owsim_plain, _, _ = c07hooks.build_owsim(plain=True)
+        owsim_race = owsim_plain_race = None
         if not quick:
             owsim_race, _, _ = c07hooks.build_owsim(race=True)
+            owsim_plain_race, _, _ = c07hooks.build_owsim(race=True, plain=True)
     except BuildError as e:
         c.violation('build_broken.json', {'kind': 'build-broken', 'what': e.what, 'output_tail': e.output[-3000:]}, no_input=True)
         c.finish(assumptions=['build failed'])
@@ -352,6 +469,20 @@ def main():
     n = 0 if replay else (70 if quick else 600)
     for i in range(n):
         add(gen_case(rng, 'g%04d' % i, big=(not quick and i % 3 == 0)))
+    # wide graphs (one generation with hundreds of links into the same input series), each run several times
+    # rep 0: the hooked binary (trace checked); reps 1..: the binary as shipped (no verif tag: no trace, goroutines not
+    # serialised on the trace mutex), all cores; thorough: one more rep under the race detector
+    wide_files, wide_plain_files, wide_race_files = [], [], []
+    for i in range(0 if replay else (2 if quick else 6)):
+        base = gen_wide(rng, 'w%02d' % i)
+        for rep in range(4 if quick else 7):
+            cd = dict(base)
+            cd['id'] = 'w%02d_r%d' % (i, rep)
+            toks = case_tokens(base)
+            toks[1] = cd['id']
+            cd['notrace'] = rep > 0
+            add(cd, toks)
+            (wide_files if rep == 0 else wide_race_files if rep == 6 else wide_plain_files).append(cd['file'])
     # the external-writer mode (known findings): a few cases, one with an empty last batch
     for i in range(0 if replay else (2 if quick else 8)):
         cd = gen_case(rng, 's%04d' % i)
@@ -363,10 +494,20 @@ def main():
     # ---- run the real ow-sim (several simgen processes in parallel, different scheduling conditions)
     files = sorted(cases)
     nproc = 8
-    groups = [files[i::nproc] for i in range(nproc)]
+    small = [f for f in files if f not in wide_files + wide_plain_files + wide_race_files]
+    groups = [small[i::nproc] for i in range(nproc)]
+    # the wide graphs: all cores, no injected delays; thorough: once more under the race detector
+    groups.append(wide_files)
+    groups.append(wide_plain_files)
+    groups.append(wide_race_files)
     conds = []
-    for gi in range(nproc):
+    for gi in range(len(groups)):
         env = dict(GOENV)
+        if gi >= nproc:
+            env['GOMAXPROCS'] = '16'
+            env['VERIF_JITTER_US'] = '0'
+            conds.append(env)
+            continue
         if quick:
             env['GOMAXPROCS'] = ['1', '2', '16', '4'][gi % 4]
             env['VERIF_JITTER_US'] = ['0', '400', '3000', '0', '1500', '0', '800', '3000'][gi]
@@ -380,6 +521,8 @@ def main():
         if not grp:
             continue
         binp = owsim_race if (owsim_race and gi % 2 == 1) else owsim
+        if gi >= nproc:
+            binp = [owsim, owsim_plain, owsim_plain_race][gi - nproc]
         wd = os.path.join(work, 'w%d' % gi)
         os.makedirs(wd)
         outf = open(os.path.join(work, 'simgen%d.out' % gi), 'w')
@@ -504,6 +647,8 @@ def main():
                     want = True
                 must = bool(cd['outfile']) and m['N'] > 0 and want
                 if must and impl != orc:
+                    if bad is not None:
+                        continue            # one replay file per case (the first differing dataset)
                     key = None
                     if m['name'] in cd['split'] and label == 'states' and impl == 'NONE' and \
                             mo['MIMPL'] != 'FAIL' and mo['MIMPL'].get((m['name'], 'states')) == 'NONE':
@@ -515,7 +660,7 @@ def main():
                     if v and bad is None:
                         bad = (m['name'], label)
         # ---- correspondence model <-> code
-        for tag in ('MSCHED', 'MIMPL'):
+        for tag in (('MIMPL',) if cd.get('notrace') else ('MSCHED', 'MIMPL')):
             if mo[tag] == 'FAIL':
                 c.corr_broken.append({'case': cd['id'], 'diff': '%s fails but ow-sim succeeded' % tag})
                 continue
@@ -534,7 +679,9 @@ def main():
             c.corr_broken.append({'case': cd['id'], 'diff': 'extracted impl_sim <> ref_sim on a valid graph (theorem instance)'})
         # ---- protocol
         pr = mo['PROTO'] or {}
-        if not (pr.get('accepts') == '1' and pr.get('exited') == '1' and pr.get('legal') == '1'):
+        if cd.get('notrace'):
+            stats['runs_without_trace_hooks'] = stats.get('runs_without_trace_hooks', 0) + 1
+        elif not (pr.get('accepts') == '1' and pr.get('exited') == '1' and pr.get('legal') == '1'):
             c.violation('protocol_%s.json' % cd['id'],
                         dict(replay, kind='trace-not-a-run-of-the-protocol-model', acceptor=pr))
         if stats['runs'] % 23 == 1:
@@ -542,6 +689,12 @@ def main():
                       'links': len(cd['links']), 'flags': cd['flags'], 'conditions': r['cond'],
                       'trace': ' '.join(':'.join(t) for t in r['trace'])[:300]})
     shutil.rmtree(work, ignore_errors=True)
+    for b in (owsim, owsim_race, owsim_plain, owsim_plain_race):
+        if b and '-private' in os.path.basename(b):
+            try:
+                os.remove(b)
+            except OSError:
+                pass
     stats['distinct_traces'] = len(stats['distinct_traces'])
     stats['T_values'] = sorted(stats['T_values'])
     c.cov['rule'] = ('layered DAGs over Input, Sum, Gate, FixedPartition, VariablePartition, ApplyScalingFactor, PartitionDemand, '
